@@ -521,6 +521,13 @@ class C16(F.Spec):
             return fs, ("PUBLISH", pend.get(pid), ok)
         pid = struct.unpack(">H", pkt[2:4])[0]
         wellformed = fl == (2 if ty == 6 else 0)
+        if ty in (4, 5, 6, 7, 11) and pkt[1] != 2:
+            # impossible length: these acknowledgements carry a packet id and nothing else
+            if ok:
+                fs.append(F.Finding("impossible-length-accepted", "a %s with remaining length %d (it is 2 by definition) for an outstanding "
+                                    "request is accepted without a protocol error; the bytes behind the packet id are then read as the next "
+                                    "packet" % (self.NAMES.get(ty, ty), pkt[1])))
+            return fs, (self.NAMES.get(ty, ty), "len", ok)
         # (MQTT-C accepts PUBACK and PUBREC for an outstanding PUBLISH of either QoS: an acknowledgement of the wrong QoS flow, but
         # of something that was sent - the property only excludes acknowledgements of what was never sent)
         kind_of = {"sub": "sub", "pub1": "pub", "pub2": "pub"}
@@ -757,6 +764,11 @@ class C16(F.Spec):
                 return bytes([ty << 4 | fl]) + (bytes([3]) + struct.pack(">H", pid) + b"\0" if ty == 9 else bytes([2]) + struct.pack(">H", pid))
             trials.append(ack(right[what], 0, pid))
             trials.append(ack(right[what], rng.choice([1, 2, 4, 8]), pid))
+            if what != "sub":
+                # the right acknowledgement with an impossible length: a whole PINGRESP (or a small PUBLISH) rides behind the packet id
+                tail = rng.choice([b"\xd0\x00", publish(b"t/x", b"hello", 0, 0)])
+                a0 = ack(right[what], 0, pid)
+                trials.append(bytes([a0[0], 2 + len(tail)]) + a0[2:] + tail)
             for pid2, what2 in sorted(pend.items()):
                 wrong = [t for t in (4, 5, 6, 7, 9, 11) if t != right[what2] and not (what2 != "sub" and t in (4, 5))]
                 for ty in (wrong if tier != "quick" else rng.sample(wrong, min(3, len(wrong)))):
